@@ -47,6 +47,15 @@ Theorem C10_generate_does_not_disturb : forall cp g p junk k args j,
   eval_after cp g [EScratch junk; EGen p] k args j = eval_after cp g [] k args j.
 Proof. exact generate_does_not_disturb_lemma. Qed.
 
+(* failing materialisation (a lazy constant, or a lazy list passed to several evaluations, whose producer fails
+   at some element): List.Eval returns the error before it writes anything, so the step changes NOTHING - the
+   shared object stays lazy and fails again, identically, for whoever touches it next.  Failing evaluations are
+   ordinary members of the histories of C10_eval_history_independent (the theorem has no side condition on them) *)
+Theorem C10_failing_eval_changes_nothing : forall R a mk (k : option nat -> script R) h,
+  poisoned (icontent h a) = true ->
+  match alloc_eval a mk k with Do f => f h = (h, k None) | Done _ => False end.
+Proof. exact failing_eval_changes_nothing_lemma. Qed.
+
 (* the stack leg (C01's simulation): residue of earlier activity on a stack storage - anything above and
    below the frame holding the arguments - is irrelevant; an evaluation started on such a storage and one on
    a fresh storage both give the outcome of the reference semantics, which has no stack *)
@@ -79,9 +88,27 @@ Proof.
   cbv zeta. split; [apply (C10_reachable_states_ok _ [EGen _])|]. vm_compute. repeat split; reflexivity.
 Qed.
 
+(* non-vacuity for failing materialisation: `let c0=[5,6,7,8]; let c1=c0.map(e->e+0%(e-7)); c1.append(a0)`
+   (the closure fails on the element 7): every evaluation fails, before and after any history, the constant
+   stays lazy (never half-materialised); `c1.top(2)` of the same constant works, before and after the failures *)
+Example C10_failing_materialisation_nonvacuous :
+  let cp := mkCaps (fun n => 2 * n) (fun n => 2 * n) in
+  let p := mkP [DL (LLit [5; 6; 7; 8]%Z); DL (LGuard (SLit 7) (LConst 0))] (BL (LAppend (LConst 1) (ZS (SArg 0)))) in
+  let q := mkP [DL (LLit [5; 6; 7; 8]%Z); DL (LGuard (SLit 7) (LConst 0))] (BL (LTop (SAdd (SArg 0) (SLit 2)) (LConst 1))) in
+  let g1 := run_event cp new_generator (EGen p) in
+  let g2 := run_hist cp g1 [EEval 0 [1]%Z 9; EEval 0 [2]%Z 9] in
+  sp_prog p [1]%Z 9 = Some FuncState.OErr /\
+  eval_after cp g1 [] 0 [1]%Z 9 = FuncState.OErr /\
+  eval_after cp g1 [EEval 0 [1]%Z 9; EEval 0 [2]%Z 0; EGen q; EEval 1 [0]%Z 9] 0 [1]%Z 9 = FuncState.OErr /\
+  repr (g_heap g1) 1 = (false, 0, 0) /\ repr (g_heap g2) 1 = (false, 0, 0) /\
+  eval_after cp (run_event cp new_generator (EGen q)) [EEval 0 [5]%Z 9] 0 [0]%Z 9 = FuncState.OList [5; 6]%Z /\
+  eval_after cp (run_event cp new_generator (EGen q)) [] 0 [5]%Z 9 = FuncState.OErr.
+Proof. vm_compute. repeat split; reflexivity. Qed.
+
 Print Assumptions C10_outcome_depends_on_content_only.
 Print Assumptions C10_eval_history_independent.
 Print Assumptions C10_reachable_states_ok.
 Print Assumptions C10_generated_function_meets_spec.
 Print Assumptions C10_generate_does_not_disturb.
+Print Assumptions C10_failing_eval_changes_nothing.
 Print Assumptions C10_stack_residue_irrelevant.
